@@ -36,6 +36,7 @@ func runC05(c *core.Ctx) {
 	ruleVisitedMonotone(c)
 	ruleNoObjStmFromObjStm(c)
 	ruleCyclePathCumulative(c)
+	ruleFileValueAsKeyOrSize(c)
 }
 
 // call graph -----------------------------------------------------------------
@@ -1447,11 +1448,23 @@ func ruleUncheckedAssertions(c *core.Ctx) {
 				}
 				n++
 				o.Count(1)
+				if poolAssertionSafe(c, fn, ta) {
+					// pool.Get().(*T) on a pool that only ever holds *T
+					return true
+				}
 				key := fn.Key + "|" + c.Prog.Src(ta.Type)
 				typ := c.Prog.Src(ta.Type)
 				reviewed := allowedOrOnlyCalledBy(c, fn, func(k string) bool { _, ok := c05Assertions[k+"|"+typ]; return ok }, 0)
 				if !reviewed {
-					o.FailAt(fn.Site(ta, ""), "%s: unchecked type assertion %s in %s is not in the reviewed table (key %q)", c.Prog.Pos(ta.Pos()), c.Prog.Src(ta), fn.Key, key)
+					xt := fn.Info().TypeOf(ta.X)
+					if xt != nil && (core.IsNamed(xt, "pdf", "Object") || core.IsNamed(xt, "pdf", "Native")) {
+						// the operand is an object as it came out of a file: its dynamic type is the file's choice
+						o.FailAt(fn.Site(ta, ""), "unchecked type assertion %s in %s on a value of type %s (an object read from the file decides the dynamic type, a failed assertion panics); it is not in the reviewed table (key %q)", c.Prog.Src(ta), fn.Key, core.TypeString(xt), key)
+					} else {
+						// an interface value of another kind (a pooled coder, a writer): whether the
+						// dynamic type is always the asserted one is not decided here
+						o.Unrec("%s: unchecked type assertion %s in %s is not in the reviewed table (key %q); its operand is not a file object, whether it can fail is not decided", c.Prog.Pos(ta.Pos()), c.Prog.Src(ta), fn.Key, key)
+					}
 				}
 				return true
 			})
@@ -1763,4 +1776,300 @@ func ruleCyclePathCumulative(c *core.Ctx) {
 		}
 	}
 	c.Floor(rule, 1)
+}
+
+// ruleFileValueAsKeyOrSize (C05-R12, C05-R13): two ways in which a value taken
+// from the file turns into a run-time panic or an unbounded allocation
+// without any explicit panic, index or recursion in the source.
+//
+// R12: a map whose key type is an interface panics ("hash of unhashable
+// type") when it is indexed with a value whose dynamic type is a slice or a
+// map.  pdf.Object and pdf.Native are implemented by Array, Dict and String:
+// an index expression whose key has one of these interfaces as its static
+// type is a panic waiting for a malformed file.  Keys of a concrete
+// comparable type (Reference, Name, Integer) are fine.
+//
+// R13: make() with a length or capacity computed from a pdf.Integer (a number
+// read from the file) allocates what the file says, or panics when the value
+// is out of range, unless an upper bound on that value is established first.
+func ruleFileValueAsKeyOrSize(c *core.Ctx) {
+	isFileIface := func(t types.Type) bool {
+		if t == nil {
+			return false
+		}
+		if _, ok := t.Underlying().(*types.Interface); !ok {
+			return false
+		}
+		return core.IsNamed(t, "pdf", "Object") || core.IsNamed(t, "pdf", "Native")
+	}
+	c.Check("C05-R12", "file-object-as-map-key", "no map is indexed with a key whose static type is pdf.Object or pdf.Native (the dynamic type may be an array, a dictionary or a string, which cannot be hashed)", func(o *core.Ob) {
+		n := 0
+		for _, pkg := range c.Prog.RepoPkgs() {
+			for _, fn := range c.Prog.Funcs(pkg) {
+				if fn.Decl.Body == nil || c.Prog.IsTestFile(fn.Decl.Pos()) {
+					continue
+				}
+				info := fn.Info()
+				check := func(m, k ast.Expr, at ast.Node) {
+					mt, ok := info.TypeOf(m).Underlying().(*types.Map)
+					if !ok {
+						return
+					}
+					if _, isIface := mt.Key().Underlying().(*types.Interface); !isIface {
+						return
+					}
+					n++
+					o.At(fn.Site(at, "map keyed by an interface"))
+					kt := info.TypeOf(k)
+					if isFileIface(kt) {
+						o.FailAt(fn.Site(at, ""), "the map %s is indexed with %s of static type %s; a malformed file can put an array, a dictionary or a string there, and the index expression panics (hash of unhashable type)", core.ExprStr(m), core.ExprStr(k), core.TypeString(kt))
+					}
+				}
+				ast.Inspect(fn.Decl.Body, func(m ast.Node) bool {
+					switch x := m.(type) {
+					case *ast.IndexExpr:
+						if tv, ok := info.Types[x.X]; ok && !tv.IsType() {
+							check(x.X, x.Index, x)
+						}
+					case *ast.CallExpr:
+						if core.CalleeKey(info, x) == "builtin.delete" && len(x.Args) == 2 {
+							check(x.Args[0], x.Args[1], x)
+						}
+					}
+					return true
+				})
+			}
+		}
+		o.Count(n + 1)
+	})
+	c.Check("C05-R13", "allocation-sized-by-file-value", "no make() takes its length or capacity from a pdf.Integer without an upper bound established on every path to it", func(o *core.Ob) {
+		n := 0
+		for _, pkg := range c.Prog.RepoPkgs() {
+			for _, fn := range c.Prog.Funcs(pkg) {
+				if fn.Decl.Body == nil || c.Prog.IsTestFile(fn.Decl.Pos()) {
+					continue
+				}
+				info := fn.Info()
+				hasMake := false
+				ast.Inspect(fn.Decl.Body, func(m ast.Node) bool {
+					if call, ok := m.(*ast.CallExpr); ok && core.CalleeKey(info, call) == "builtin.make" && len(call.Args) >= 2 {
+						hasMake = true
+					}
+					return !hasMake
+				})
+				if !hasMake {
+					continue
+				}
+				g := fn.Graph()
+				for _, v := range g.Vs {
+					if v.AST == nil {
+						continue
+					}
+					for _, cs := range core.CallsIn(info, v.AST, false) {
+						if cs.Key != "builtin.make" || len(cs.Call.Args) < 2 {
+							continue
+						}
+						for _, sz := range cs.Call.Args[1:] {
+							src := fileIntegerSource(g, v, sz, 3)
+							if src == nil {
+								continue
+							}
+							n++
+							o.At(fn.Site(cs.Call, "sized by "+core.ExprStr(sz)))
+							objs := map[types.Object]bool{}
+							ast.Inspect(sz, func(k ast.Node) bool {
+								if id, ok := k.(*ast.Ident); ok {
+									if ob, isVar := info.ObjectOf(id).(*types.Var); isVar {
+										objs[ob] = true
+									}
+								}
+								return true
+							})
+							for _, ob := range src {
+								objs[ob] = true
+							}
+							bounded := g.GuardedBy(v, func(a core.Atom) bool {
+								cmp, ok := a.AsCmp()
+								if !ok {
+									return false
+								}
+								l, r, op := cmp.L, cmp.R, cmp.Op
+								if op == token.GTR || op == token.GEQ {
+									l, r = r, l
+									op = map[token.Token]token.Token{token.GTR: token.LSS, token.GEQ: token.LEQ}[op]
+								}
+								if op != token.LSS && op != token.LEQ {
+									return false
+								}
+								// l < r: l mentions the value, r does not
+								lm, rm := false, false
+								for ob := range objs {
+									if core.Mentions(info, l, ob) {
+										lm = true
+									}
+									if core.Mentions(info, r, ob) {
+										rm = true
+									}
+								}
+								return lm && !rm
+							})
+							if !bounded {
+								o.FailAt(fn.Site(cs.Call, ""), "make(%s) takes a size from %s, a number read from the file, and no upper bound on it is established on the way: a file that says 2^60 makes this call panic (or allocate what it says)", core.ExprStr(cs.Call.Args[0]), core.ExprStr(sz))
+							}
+						}
+					}
+				}
+			}
+		}
+		o.Count(n + 1)
+	})
+}
+
+// fileIntegerSource reports whether the size expression e (as evaluated at
+// vertex at) is computed from a value of type pdf.Integer, following
+// conversions, arithmetic and single definitions of locals; it returns the
+// variables involved (non-nil, possibly empty) or nil.
+func fileIntegerSource(g *core.Graph, at *core.V, e ast.Expr, depth int) []types.Object {
+	info := g.Info
+	var out []types.Object
+	found := false
+	var walk func(e ast.Expr, at *core.V, depth int)
+	walk = func(e ast.Expr, at *core.V, depth int) {
+		e = ast.Unparen(e)
+		if _, isConst := core.IntConst(info, e); isConst {
+			return
+		}
+		if t := info.TypeOf(e); t != nil && core.IsNamed(t, "pdf", "Integer") {
+			found = true
+		}
+		switch x := e.(type) {
+		case *ast.CallExpr:
+			if tv, ok := info.Types[x.Fun]; ok && tv.IsType() && len(x.Args) == 1 {
+				walk(x.Args[0], at, depth)
+				return
+			}
+			if core.CalleeKey(info, x) == "builtin.len" || core.CalleeKey(info, x) == "builtin.cap" || core.CalleeKey(info, x) == "builtin.min" {
+				if core.CalleeKey(info, x) == "builtin.min" {
+					// min(n, K) with a constant: bounded
+					for _, a := range x.Args {
+						if _, isK := core.IntConst(info, a); isK {
+							found = false
+							return
+						}
+					}
+					for _, a := range x.Args {
+						walk(a, at, depth)
+					}
+				}
+				return
+			}
+		case *ast.BinaryExpr:
+			walk(x.X, at, depth)
+			walk(x.Y, at, depth)
+		case *ast.Ident:
+			ob, isVar := info.ObjectOf(x).(*types.Var)
+			if !isVar {
+				return
+			}
+			out = append(out, ob)
+			if depth <= 0 {
+				return
+			}
+			for _, cs := range valueCases(g, at, x, 1) {
+				if cs.V != nil && cs.V != at && cs.Expr != ast.Expr(x) {
+					walk(cs.Expr, cs.V, depth-1)
+				}
+			}
+		}
+	}
+	walk(e, at, depth)
+	if !found {
+		return nil
+	}
+	if out == nil {
+		out = []types.Object{}
+	}
+	return out
+}
+
+// poolAssertionSafe recognises P.Get().(*T) for a package-level sync.Pool P
+// of the same package whose New function returns a *T (new(T), &T{...}, or a
+// local of that type) and into which only values of static type *T are Put:
+// the asserted value cannot have another dynamic type, and a nil (a pool
+// without New) is excluded by requiring New.
+func poolAssertionSafe(c *core.Ctx, fn *core.Func, ta *ast.TypeAssertExpr) bool {
+	info := fn.Info()
+	call, ok := ast.Unparen(ta.X).(*ast.CallExpr)
+	if !ok || len(call.Args) != 0 || !strings.HasSuffix(core.CalleeKey(info, call), "sync.Pool).Get") {
+		return false
+	}
+	sel, ok := ast.Unparen(call.Fun).(*ast.SelectorExpr)
+	if !ok {
+		return false
+	}
+	pool, isVar := core.ObjOf(info, sel.X).(*types.Var)
+	if !isVar || pool.Pkg() == nil || pool.Parent() != pool.Pkg().Scope() {
+		return false
+	}
+	want := info.TypeOf(ta.Type)
+	if want == nil {
+		return false
+	}
+	if _, isPtr := want.Underlying().(*types.Pointer); !isPtr {
+		return false
+	}
+	// the pool's initialiser: sync.Pool{New: func() any { return <*T> }} (or a pointer to it)
+	_, init, ipkg := c.Prog.Var(core.ShortPkg(pool.Pkg().Path()), pool.Name())
+	if init == nil {
+		return false
+	}
+	e := ast.Unparen(init)
+	if u, isU := e.(*ast.UnaryExpr); isU && u.Op == token.AND {
+		e = ast.Unparen(u.X)
+	}
+	cl, isCL := e.(*ast.CompositeLit)
+	if !isCL {
+		return false
+	}
+	newFn := literalField(ipkg.TypesInfo, cl, "New")
+	lit, isLit := ast.Unparen(newFn).(*ast.FuncLit)
+	if newFn == nil || !isLit {
+		return false
+	}
+	okNew, nret := true, 0
+	ast.Inspect(lit.Body, func(m ast.Node) bool {
+		if inner, isInner := m.(*ast.FuncLit); isInner && inner != lit {
+			return false
+		}
+		if rs, isRet := m.(*ast.ReturnStmt); isRet {
+			nret++
+			if len(rs.Results) != 1 || !types.Identical(ipkg.TypesInfo.TypeOf(rs.Results[0]), want) {
+				okNew = false
+			}
+		}
+		return true
+	})
+	if !okNew || nret == 0 {
+		return false
+	}
+	// every Put on this pool in the package hands over a *T
+	for _, f := range c.Prog.Funcs(fn.Pkg) {
+		if f.Decl.Body == nil {
+			continue
+		}
+		fi := f.Info()
+		for _, cs := range core.CallsIn(fi, f.Decl.Body, true) {
+			if !strings.HasSuffix(cs.Key, "sync.Pool).Put") || len(cs.Call.Args) != 1 {
+				continue
+			}
+			ps, isSel := ast.Unparen(cs.Call.Fun).(*ast.SelectorExpr)
+			if !isSel || core.ObjOf(fi, ps.X) != types.Object(pool) {
+				continue
+			}
+			if !types.Identical(fi.TypeOf(cs.Call.Args[0]), want) {
+				return false
+			}
+		}
+	}
+	return true
 }
